@@ -26,7 +26,10 @@ pub fn random_op(c: &mut Ctx, cur: &str, cfg: &GenCfg) -> String {
             else { let a = gen_assertion(c, cfg, 0); c.count("hist:remove-absent"); c.assign(&format!("remove {} {}", cur, a)) }
         }
         7 => {
-            if nas > 0 { let i = c.rng.below(nas); let a = c.assign(&format!("at {} a{}", cur, i)); let b = gen_assertion(c, cfg, 1); c.assign(&format!("replace_assertion {} {} {}", cur, a, b)) }
+            if nas > 0 { let i = c.rng.below(nas); let a = c.assign(&format!("at {} a{}", cur, i));
+                // the replacement: an assertion, or something that may not stand in an assertion slot (must be refused)
+                let b = match c.rng.below(4) { 0 => { c.count("hist:replace-by-nonassertion"); let x = gen_leaf(c, cfg); if c.rng.chance(1, 2) { c.assign(&format!("wrap {}", x)) } else { x } } _ => gen_assertion(c, cfg, 1) };
+                c.assign(&format!("replace_assertion {} {} {}", cur, a, b)) }
             else { cur.to_string() }
         }
         8 | 9 => {
